@@ -4,22 +4,23 @@ check of every property the change breaks (meta.json "breaks"), undo it straight
 record in meta.json which checks fired.  ./tools_seeded.py [id-prefix ...]"""
 import json, os, subprocess, sys, glob
 VERIF = os.path.dirname(os.path.abspath(__file__))
+REPO = os.environ.get("VERIF_REPO", "/repo")
 def sh(cmd, **kw):
     return subprocess.run(cmd, stdout=subprocess.PIPE, stderr=subprocess.STDOUT, text=True, **kw)
 def main():
     want = sys.argv[1:]
-    assert sh(["git", "-C", "/repo", "status", "--porcelain"]).stdout.strip() == "", "/repo is not clean"
+    assert sh(["git", "-C", REPO, "status", "--porcelain"]).stdout.strip() == "", REPO + " is not clean"
     for d in sorted(glob.glob(os.path.join(VERIF, "seeded", "*"))):
         sid = os.path.basename(d)
         if want and not any(sid.startswith(w) for w in want):
             continue
         meta = json.load(open(os.path.join(d, "meta.json")))
-        r = sh(["git", "-C", "/repo", "apply", os.path.join(d, "patch.diff")])
+        r = sh(["git", "-C", REPO, "apply", os.path.join(d, "patch.diff")])
         if r.returncode != 0:
             print(sid, "patch does not apply:", r.stdout[:200]); continue
         res = {}
         try:
-            b = sh(["go", "build", "./..."], cwd="/repo", env=dict(os.environ, GOFLAGS="-mod=mod", GOPROXY="off", GOSUMDB="off", GOTOOLCHAIN="local"))
+            b = sh(["go", "build", "./..."], cwd=REPO, env=dict(os.environ, GOFLAGS="-mod=mod", GOPROXY="off", GOSUMDB="off", GOTOOLCHAIN="local"))
             if b.returncode != 0:
                 print(sid, "does not build"); continue
             for pid in meta.get("breaks", []) + meta.get("also_run", []):
@@ -27,7 +28,7 @@ def main():
                 line = [l for l in c.stdout.split("\n") if l.startswith("VIOLATION")]
                 res[pid] = {"rc": c.returncode, "line": (line[0] if line else "")}
         finally:
-            sh(["git", "-C", "/repo", "checkout", "--", "."])
+            sh(["git", "-C", REPO, "checkout", "--", "."])
         key = "detected_by"
         if os.environ.get("VERIF_SEED", "1") != "1":
             key = "detected_by_seed" + os.environ["VERIF_SEED"]
